@@ -18,7 +18,11 @@ TRUSTED = TRUSTED + ["crypto/tls is real on both ends of the cstls probe and abs
 
 
 def groups(tier, rng):
-    return _conv_groups(tier, rng) + [_Group("cstls/new-client-starttls", _cs.new_cases(tier, rng), theorems=THEOREMS),
+    from vlib.props import C06 as _C06
+    # (what was counted of a plaintext transfer — octets against the size limit — is plaintext state too: it does not reach into the TLS session)
+    return _conv_groups(tier, rng) + [_Group("conv/size-budget-across-the-upgrade", [c.replace("\tTAG=fits", "") for c in _C06.starttls_convs(tier, rng)],
+                                             project=lambda c, a: cc.project(a, codes="exact", enh=True, drecs="ret"), theorems=THEOREMS),
+                                      _Group("cstls/new-client-starttls", _cs.new_cases(tier, rng), theorems=THEOREMS),
                                       _Group("cstls/package-sendmail", _cs.sendmail_cases(tier, rng), theorems=THEOREMS)]
 
 
